@@ -407,6 +407,20 @@ impl C15 {
                 c
             }
         };
+        // The process's temporary directory is on ANOTHER file system than the outputs (tmpfs) and is watched: replacing an
+        // output atomically needs the temporary file next to it — one created in $TMPDIR cannot be renamed over it (EXDEV,
+        // the run fails) and whatever is left there after the run is litter outside the output directory.
+        let foreign_tmp = {
+            use std::os::unix::fs::MetadataExt;
+            let shm = Path::new("/dev/shm");
+            match (fs::metadata(shm), fs::metadata(&case.root)) {
+                (Ok(a), Ok(b)) if a.dev() != b.dev() => tempfile::Builder::new().prefix("qv-c15-tmp-").tempdir_in(shm).ok(),
+                _ => None,
+            }
+        };
+        if let Some(t) = &foreign_tmp {
+            cmd.env("TMPDIR", t.path());
+        }
         let out = cmd
             .args(args)
             .current_dir(cwd)
@@ -415,7 +429,16 @@ impl C15 {
             .stdin(Stdio::null())
             .output()
             .expect("spawn CLI");
-        let stderr = String::from_utf8_lossy(&out.stderr).into_owned();
+        let tmp_litter: Vec<String> = foreign_tmp
+            .as_ref()
+            .and_then(|t| fs::read_dir(t.path()).ok())
+            .map(|rd| rd.flatten().map(|e| e.file_name().to_string_lossy().into_owned()).collect())
+            .unwrap_or_default();
+        let mut stderr = String::from_utf8_lossy(&out.stderr).into_owned();
+        if !tmp_litter.is_empty() {
+            // reported through the diagnostic text: every oracle that predicts the status class sees an unknown message
+            stderr.push_str(&format!("\nqv-harness: files left in $TMPDIR: {}\n", tmp_litter.join(" ")));
+        }
         let mut res = RunResult {
             code: out.status.code(),
             killed: false,
@@ -1165,6 +1188,121 @@ impl C15 {
         node("multi", out)
     }
 
+    /// Oracle `cli-every-source`: one invocation with 2-6 sources in a fresh directory.  Each source is a regular file, a
+    /// symbolic link to another listed file (same or other directory), a file reached through a symbolic link to its
+    /// directory, the same file once more under another spelling, or a document that is rejected.  Demanded: the outputs
+    /// `<stem>.ui` / `uisupport_<stem>.h` next to EVERY accepted source path as listed (named after the listed name, with
+    /// `<class>` = the listed file's stem), none for a rejected one, exit status 1 iff some source is rejected.
+    fn answer_every_source(&self, args: &[Sexp]) -> Sexp {
+        let mut rng = Rng::fork(args[0].as_usize().unwrap() as u64, "c15-every-source", args[1].as_usize().unwrap() as u64);
+        let case = CaseDir::new();
+        let cwd = case.cwd.clone();
+        fs::create_dir_all(cwd.join("d")).unwrap();
+        fs::create_dir_all(cwd.join("e")).unwrap();
+        let good = |t: &str| format!("import qmluic.QtWidgets\nQDialog {{\n    windowTitle: \"{t}\"\n    QLabel {{ id: a; text: b.text }}\n    QLineEdit {{ id: b }}\n}}\n");
+        let bad = "import qmluic.QtWidgets\nQDialog { unknown: 1 }\n";
+        // (listed path, accepted)
+        let mut listed: Vec<(String, bool)> = vec![];
+        let names = ["Alpha", "Beta", "Gamma", "Delta", "Eps", "Zeta"];
+        let n = 2 + rng.below(5);
+        let mut real: Vec<(String, bool)> = vec![]; // regular files so far (relative path, accepted)
+        for i in 0..n {
+            let name = names[i];
+            let kind = if real.is_empty() { 0 } else { rng.below(6) };
+            match kind {
+                0 | 1 => {
+                    let dir = *rng.pick(&["", "d/", "e/"]);
+                    let ok = !rng.chance(1, 4);
+                    let p = format!("{dir}{name}.qml");
+                    fs::write(cwd.join(&p), if ok { good(name) } else { bad.to_owned() }).unwrap();
+                    real.push((p.clone(), ok));
+                    listed.push((p, ok));
+                }
+                2 => {
+                    // symbolic link to a listed file, in the same or another directory
+                    let (t, ok) = rng.pick(&real).clone();
+                    let dir = *rng.pick(&["", "d/", "e/"]);
+                    let p = format!("{dir}{name}.qml");
+                    let target = if dir.is_empty() { t.clone() } else { format!("../{t}") };
+                    if std::os::unix::fs::symlink(&target, cwd.join(&p)).is_ok() {
+                        listed.push((p, ok));
+                    }
+                }
+                3 => {
+                    // the directory of a listed file under a second name
+                    let (t, ok) = rng.pick(&real).clone();
+                    if let Some((dir, file)) = t.rsplit_once('/') {
+                        let alias = format!("{dir}link{i}");
+                        if std::os::unix::fs::symlink(dir, cwd.join(&alias)).is_ok() {
+                            listed.push((format!("{alias}/{file}"), ok));
+                        }
+                    }
+                }
+                4 => {
+                    // the same file under another spelling
+                    let (t, ok) = rng.pick(&real).clone();
+                    let sp = match rng.below(3) {
+                        0 => format!("./{t}"),
+                        1 => format!("d/../{t}"),
+                        _ => t.clone(),
+                    };
+                    listed.push((sp, ok));
+                }
+                _ => {
+                    let p = format!("{name}.qml");
+                    fs::write(cwd.join(&p), bad).unwrap();
+                    real.push((p.clone(), false));
+                    listed.push((p, false));
+                }
+            }
+        }
+        rng.shuffle(&mut listed);
+        let o = Opts { outdir: None, nodyn: false, nolower: false };
+        let srcs: Vec<String> = listed.iter().map(|l| l.0.clone()).collect();
+        let argv = self.cli_args(&case, &o, &srcs);
+        let r = self.run_cli(&case, &cwd, &argv, Strace::No);
+        let mut f: Vec<String> = vec![];
+        let any_bad = listed.iter().any(|l| !l.1);
+        match (r.code, any_bad) {
+            (Some(0), false) | (Some(1), true) => {}
+            (c, _) => f.push(format!("exit status {c:?} with {} rejected source(s) listed", listed.iter().filter(|l| !l.1).count())),
+        }
+        for (p, ok) in &listed {
+            let (dir, file) = p.rsplit_once('/').map(|(d, f)| (format!("{d}/"), f)).unwrap_or((String::new(), p.as_str()));
+            let stem = file.trim_end_matches(".qml");
+            let ui = cwd.join(format!("{dir}{}.ui", stem.to_lowercase()));
+            let hdr = cwd.join(format!("{dir}uisupport_{}.h", stem.to_lowercase()));
+            // two listed paths may name one output (a spelling variant of the same file): then both say the same
+            let clash = listed.iter().any(|(q, okq)| q != p && okq != ok && {
+                let (dq, fq) = q.rsplit_once('/').map(|(d, f)| (format!("{d}/"), f)).unwrap_or((String::new(), q.as_str()));
+                fs::canonicalize(cwd.join(&dq)).ok() == fs::canonicalize(cwd.join(&dir)).ok() && fq.eq_ignore_ascii_case(file)
+            });
+            if clash {
+                continue;
+            }
+            match (ok, fs::read_to_string(&ui)) {
+                (true, Ok(text)) => {
+                    if !text.contains(&format!("<class>{stem}</class>")) {
+                        f.push(format!("{p}: {} does not carry <class>{stem}</class>", ui.strip_prefix(&cwd).unwrap().display()));
+                    }
+                    if !hdr.exists() {
+                        f.push(format!("{p}: accepted, but its support header was not written"));
+                    }
+                }
+                (true, Err(_)) => f.push(format!("{p}: listed and accepted, but no {}.ui was written next to it", stem.to_lowercase())),
+                (false, Ok(_)) => f.push(format!("{p}: rejected, but a .ui was written")),
+                (false, Err(_)) => {}
+            }
+        }
+        if f.is_empty() {
+            node("ok", vec![node("sources", vec![num(listed.len())])])
+        } else {
+            f.truncate(4);
+            f.push(format!("command line: {}", srcs.join(" ")));
+            node("fail", f.into_iter().map(st).collect())
+        }
+    }
+
     /// property oracle over histories: see the module documentation
     fn answer_fresh_oracle(&self, args: &[Sexp]) -> Sexp {
         let opts = parse_opts(&args[0]);
@@ -1693,6 +1831,13 @@ impl Stream for C15 {
             cases.push(Case { kind: "model", labels: labels.clone(), request: hist_request("cli-kill", &o, &sources, &steps) });
             cases.push(Case { kind: "oracle", labels, request: hist_request("cli-kill-oracle", &o, &sources, &steps) });
         }
+        // every listed source is translated, whatever else is on the command line: the same file under several names
+        // (symbolic links to files and through directories, `./` and `a/../` spellings, listed twice), rejected sources
+        // before / between / after accepted ones
+        let m = if thorough { 600 } else { 60 };
+        for k in 0..m {
+            cases.push(Case { kind: "oracle", labels: vec!["every-source".into()], request: node("cli-every-source", vec![num(seed as usize % 1_000_000), num(k)]) });
+        }
         cases
     }
 
@@ -1705,6 +1850,7 @@ impl Stream for C15 {
             "cli-fresh-oracle" => self.answer_fresh_oracle(args),
             "cli-kill" => self.kill_cached(args).0,
             "cli-kill-oracle" => self.kill_cached(args).1,
+            "cli-every-source" => self.answer_every_source(args),
             _ => node("bad-request", vec![]),
         }
     }
